@@ -340,6 +340,37 @@ end
 /-- `export.rs::get_state_json`: `serde_json::to_value(AutoSerde::from(&doc))` -/
 def exportJson (v : Val) : Json := v.image.toJson
 
+/-! ### the scalars of a document are values of their Rust types -/
+
+def Scalar.InRange : Scalar → Prop
+  | .bytes b => ∀ x ∈ b, x < 256
+  | .int i => I64_MIN ≤ i ∧ i ≤ I64_MAX
+  | .uint n => n ≤ U64_MAX
+  | .counter s i => I64_MIN ≤ s + i ∧ s + i ≤ I64_MAX
+  | .timestamp i => I64_MIN ≤ i ∧ i ≤ I64_MAX
+  | _ => True
+
+mutual
+/-- every visible scalar is in range (losers and deleted registers are never exported) -/
+def Val.InRange : Val → Prop
+  | .scalar s => s.InRange
+  | .text _ => True
+  | .map es => Val.InRangeEntries es
+  | .list rs => Val.InRangeRegs rs
+def Val.InRangeEntries : List (String × Reg) → Prop
+  | [] => True
+  | (_, .live w _) :: es => w.InRange ∧ Val.InRangeEntries es
+  | (_, .dead) :: es => Val.InRangeEntries es
+def Val.InRangeRegs : List Reg → Prop
+  | [] => True
+  | .live w _ :: rs => w.InRange ∧ Val.InRangeRegs rs
+  | .dead :: rs => Val.InRangeRegs rs
+end
+
+def Val.isMap : Val → Bool
+  | .map _ => true
+  | _ => false
+
 /-! ### `import.rs` -/
 
 def importNum : JNum → Scalar
